@@ -10,9 +10,9 @@ ids = args or sorted(os.path.basename(os.path.dirname(p)) for p in glob.glob('/v
 BY_FILE = {
     'streaming.c': ['C08', 'C09', 'C10', 'C01', 'C02', 'C05', 'C14'], 'loaders.c': ['C08', 'C10', 'C15', 'C02'], 'encoders.c': ['C10', 'C07', 'C03'],
     'encoding.c': ['C10', 'C15', 'C07', 'C03'], 'memory_utils.c': ['C20', 'C12', 'C06', 'C01'], 'unicode.c': ['C16'], 'serialization.c': ['C03', 'C07', 'C18', 'C20', 'C13'],
-    'arrays.c': ['C12', 'C04', 'C06', 'C18'], 'maps.c': ['C12', 'C04', 'C06'], 'strings.c': ['C16', 'C12', 'C04', 'C18'], 'bytestrings.c': ['C12', 'C04', 'C20'],
-    'tags.c': ['C04', 'C18', 'C11'], 'common.c': ['C04', 'C13', 'C19'], 'cbor.c': ['C02', 'C05', 'C11', 'C06', 'C17'], 'builder_callbacks.c': ['C02', 'C05', 'C19', 'C06', 'C14'],
-    'stack.c': ['C19', 'C02', 'C13'],
+    'arrays.c': ['C12', 'C04', 'C06', 'C18'], 'maps.c': ['C12', 'C04', 'C06', 'C18'], 'strings.c': ['C16', 'C12', 'C04', 'C18'], 'bytestrings.c': ['C12', 'C04', 'C20', 'C18'],
+    'tags.c': ['C04', 'C18', 'C11'], 'common.c': ['C04', 'C13', 'C19', 'C18'], 'cbor.c': ['C02', 'C05', 'C11', 'C06', 'C17'], 'builder_callbacks.c': ['C02', 'C05', 'C19', 'C06', 'C14'],
+    'stack.c': ['C19', 'C02', 'C13'], 'ints.c': ['C18', 'C03', 'C11'], 'floats_ctrls.c': ['C18', 'C15', 'C03'],
 }
 def sh(cmd, **kw): return subprocess.run(cmd, shell=True, capture_output=True, text=True, **kw)
 for hid in ids:
